@@ -10,11 +10,12 @@ extra = [a for a in sys.argv[3:] if not a.startswith("--")]
 NOSAN = "--nosan" in sys.argv
 TSAN = "--tsan" in sys.argv
 LIMIT = next((a.split("=")[1] for a in sys.argv if a.startswith("--limit=")), None)
-ROUND5 = "--round5" in sys.argv
+ROUND6 = "--round6" in sys.argv
+ROUND5 = "--round5" in sys.argv or ROUND6
 ROUND4 = "--round4" in sys.argv or ROUND5
 ROUND3 = "--round3" in sys.argv or ROUND4
 ROUND2 = "--round2" in sys.argv or ROUND3
-src = ("/tmp/seed5/%s-out" if ROUND5 else "/tmp/seed4/%s-out" if ROUND4 else "/tmp/seed3/%s-out" if ROUND3 else "/tmp/seed2/%s-out" if ROUND2 else "/tmp/seed/%s-out") % pid
+src = ("/tmp/seed6/%s-out" if ROUND6 else "/tmp/seed5/%s-out" if ROUND5 else "/tmp/seed4/%s-out" if ROUND4 else "/tmp/seed3/%s-out" if ROUND3 else "/tmp/seed2/%s-out" if ROUND2 else "/tmp/seed/%s-out") % pid
 wt = "/tmp/seedeval-%s-%s" % (pid, k)
 def sh(cmd, **kw):
     return subprocess.run(cmd, shell=True, stdout=subprocess.PIPE, stderr=subprocess.STDOUT, text=True, **kw)
@@ -65,7 +66,7 @@ for c in [pid] + extra:
         if m and os.path.exists(m.group(1)): os.unlink(m.group(1))
 meta["checks"] = res
 meta["detected_by"] = [c for c, v in res.items() if v["exit"] == 1]
-d = "/verif/seeded/%s-%s" % (pid, int(k) + 8 if ROUND5 else int(k) + 6 if ROUND4 else int(k) + 4 if ROUND3 else int(k) + 2 if ROUND2 else k)
+d = "/verif/seeded/%s-%s" % (pid, int(k) + 10 if ROUND6 else int(k) + 8 if ROUND5 else int(k) + 6 if ROUND4 else int(k) + 4 if ROUND3 else int(k) + 2 if ROUND2 else k)
 os.makedirs(d, exist_ok=True)
 shutil.copy("%s/patch%s.diff" % (src, k), d + "/patch.diff")
 shutil.copy("%s/demo%s.c" % (src, k), d + "/demo.c")
